@@ -24,7 +24,7 @@ DECIDED = [
     'presets give every one of the 15 slots a unit of its own dimension',
     'R3 a preferred unit, a display unit or a display value never feeds a number on the compute path: slots '
     'are only called as coercions or used as the unit operand of >> / << in presentation functions; elsewhere'
-    ' the unit operand is a literal unit or a unit parameter; .units/.unit_value occur only in the re-wrap '
+    ' the unit operand is a literal unit or a unit parameter; .units/.unit_value do not occur on the compute path (a re-wrap q.units(q.unit_value * k) with k != 1 computes in the display unit and is refuted) '
     'idiom; coercing an existing quantity with a preferred unit hands back that very object (evaluated); no '
     'memoised function reads PreferredUnits',
     'R4 inside the package no plain number extracted in a fixed unit (q >> U, .raw_value, arithmetic on such,'
@@ -155,6 +155,14 @@ def check_truthiness(prog: Program, rep, rule: str) -> None:
                         and _is_zero_literal(parent(consumer).body) and isinstance(parent(consumer).orelse, ast.Name) \
                         and parent(consumer).orelse.id == pname:
                     rep.ok(rule, where, f'{f.qualname}({pname}): `{text}` - the same as `{pname} or 0`')
+                    continue
+                # `if not p: p = 0` (no else): the falsy branch rebinds p to the bare 0 - for a bare 0 that is the value itself
+                if kind == 'not' and isinstance(parent(consumer), ast.If) and parent(consumer).test is consumer \
+                        and not parent(consumer).orelse and len(parent(consumer).body) == 1 \
+                        and isinstance(parent(consumer).body[0], ast.Assign) and len(parent(consumer).body[0].targets) == 1 \
+                        and isinstance(parent(consumer).body[0].targets[0], ast.Name) \
+                        and parent(consumer).body[0].targets[0].id == pname and _is_zero_literal(parent(consumer).body[0].value):
+                    rep.ok(rule, where, f'{f.qualname}({pname}): `if not {pname}: {pname} = 0` - the same as `{pname} or 0`')
                     continue
                 default = f.default_of(pname)
                 if default is not None and _is_zero_literal(default):
@@ -521,6 +529,7 @@ def check_raw_numeric_use(prog: Program, rep, rule: str) -> None:
 
 def check_no_leak(prog: Program, rep, rule: str) -> None:
     _derived_presentation(prog)
+    relabel_operands: set = set()
     umod = prog.module(C.M_UNIT)
     for mod in prog.modules.values():
         for n in ast.walk(mod.tree):
@@ -575,6 +584,14 @@ def check_no_leak(prog: Program, rep, rule: str) -> None:
                     continue
                 if mod is umod and f is not None and f.cls is not None:
                     continue          # the unit classes' own plumbing (self.units, parameters)
+                relabel = (isinstance(n, ast.BinOp) and isinstance(n.op, ast.LShift)) or \
+                    (isinstance(n, ast.Call) and n.func.attr == 'convert')
+                if relabel and isinstance(operand, ast.Attribute) and operand.attr == 'units':
+                    # q << other.units: no number is read - the result only displays like the other quantity; its magnitude is
+                    # q's (C13.R1).  A later read of the result's display value on the compute path is judged where it stands.
+                    rep.ok(rule, mod.where(n), f'{fq}: `{norm(n)[-40:]}` relabels the display unit only')
+                    relabel_operands.add(id(operand))
+                    continue
                 params = set()
                 g = f
                 while g is not None:
@@ -616,17 +633,22 @@ def check_no_leak(prog: Program, rep, rule: str) -> None:
                 if _is_presentation(f, mod, prog):
                     continue
                 if n.attr == 'unit_value':
-                    # re-wrap idiom  q.units(q.unit_value * k)
+                    # the re-wrap  q.units(q.unit_value * k)  is NOT exempt: for k != 1 it computes to_raw(from_raw(raw) * k) in
+                    # the display unit, which a coercion with a preferred unit has chosen - equal to raw * k only up to
+                    # rounding for a linear unit, and atan(k tan(raw)) for the tangent-based ones.  Only the bare re-wrap
+                    # q.units(q.unit_value) (k = 1) leaves the magnitude alone.
                     call = next((a for a in ancestors(n) if isinstance(a, ast.Call) and isinstance(a.func, ast.Attribute)
                                  and a.func.attr == 'units' and norm(a.func.value) == norm(n.value)), None)
-                    if call is not None:
-                        rep.ok(rule, mod.where(n), f'{fq}: re-wrap idiom {norm(n.value)}.units({norm(n.value)}.unit_value * k)')
+                    if call is not None and len(call.args) == 1 and call.args[0] is n:
+                        rep.ok(rule, mod.where(n), f'{fq}: {norm(n.value)}.units({norm(n.value)}.unit_value) rebuilds the same magnitude')
                         continue
+                if n.attr == 'units' and (id(n) in relabel_operands or (
+                        isinstance(parent(n), ast.BinOp) and isinstance(parent(n).op, ast.LShift) and parent(n).right is n)):
+                    continue        # right operand of <<: a display relabel, judged under (b)
                 if n.attr == 'units':
                     p = parent(n)
-                    if isinstance(p, ast.Call) and p.func is n and any(
-                            isinstance(x, ast.Attribute) and x.attr == 'unit_value' and norm(x.value) == norm(n.value)
-                            for a in p.args for x in ast.walk(a)):
+                    if isinstance(p, ast.Call) and p.func is n:
+                        # the unit operand of a re-wrap; the number handed to it is judged where it is read
                         continue
                 rep.fail(rule, mod.path, n.lineno, fq, f'{norm(n)[:50]}',
                          f'`{norm(n)}` reads a quantity in its display unit on the compute path: '
@@ -815,6 +837,7 @@ MUN = 'py_ballisticcalc/munition.py'
 TCF = 'py_ballisticcalc/trajectory_calc/_trajectory_calc.py'
 TD = 'py_ballisticcalc/trajectory_data/_trajectory_data.py'
 VARIANTS = [
+    Variant('sfp-step-scaled-in-the-display-unit', 'break', [(MUN, '            return Angular.Radian(\n                click_size.raw_value\n                * self.scale_factor.raw_value\n                / _td.raw_value\n                * magnification\n            ) << click_size.units\n', '            return click_size.units(\n                click_size.unit_value\n                * self.scale_factor.raw_value\n                / _td.raw_value\n                * magnification\n            )\n')], 'C07.R3', 'the defect repaired by 1dc3f43: the SFP step scales the number shown in the click\'s display unit, which follows PreferredUnits.adjustment'),
     Variant('wind-sort-key-display-value', 'break', [(CON, 'key=lambda wind: wind.until_distance.raw_value', 'key=lambda wind: wind.until_distance.unit_value')], 'C07.R3', '', 'pass'),
     Variant('solver-reads-preferred-unit', 'break', [(TCF, 'self.alt0 = shot_info.atmo.altitude >> Distance.Foot', 'self.alt0 = (shot_info.atmo.altitude >> PreferredUnits.distance) * 3'), (TCF, 'import Distance, Angular, Velocity, Weight, Energy, Pressure, Temperature, Unit', 'import Distance, Angular, Velocity, Weight, Energy, Pressure, Temperature, Unit, PreferredUnits')], 'C07.R3', '', 'pass'),
     Variant('preset-ogw-meter', 'break', [('py_ballisticcalc/assets/.pybc-metrics.toml', "ogw = 'Kilogram'", "ogw = 'Meter'")], 'C07.R2'),
